@@ -58,7 +58,12 @@ def check_sequence(name, m, k, points, as_numpy):
             r1 = p.evaluate(ind)
             snap = [float(v) for v in r1]
             after = [float(v) for v in ind.vector]
-            r2 = [float(v) for v in p.evaluate(ind)]
+            try:
+                r1.append(99.0)          # the caller extends / overwrites the list it was given (WorstCaseEvaluator does)
+                r1[0] = -77.0
+            except Exception:
+                pass
+            r2 = [float(v) for v in p.evaluate(Individual(list(vec) if not hasattr(vec, "copy") else vec.copy()))]
         except Exception as e:
             return [("C16:%s:sequence:exception:%s" % (name, type(e).__name__), "%s at %r raised %r" % (name, x, e))]
         if after != [float(v) for v in x]:
@@ -66,13 +71,13 @@ def check_sequence(name, m, k, points, as_numpy):
                 name, m, x, after, "ndarray" if as_numpy == "ndarray" else "list")))
         if r2 != snap:
             out.append(("C16:%s:second-evaluation-differs" % name, "%s m=%d at %r: first %r, second evaluation of the same individual %r" % (name, m, x, snap, r2)))
-        kept.append((x, r1, snap))
+        kept.append((x, r1, ([-77.0] + snap[1:] + [99.0]) if isinstance(r1, list) else snap, snap))
         if out:
             return out
-    for x, obj, snap in kept:
-        if [float(v) for v in obj] != snap:
+    for x, obj, now, snap in kept:
+        if [float(v) for v in obj] != now:
             out.append(("C16:%s:earlier-result-overwritten" % name,
-                        "%s m=%d: the cost list returned for %r read %r when returned and %r after later evaluations" % (name, m, x, snap, [float(v) for v in obj])))
+                        "%s m=%d: the cost list returned for %r (then modified by the caller to %r) reads %r after later evaluations" % (name, m, x, now, [float(v) for v in obj])))
             break
         out += check_values(name, m, k, tuple(x), snap)
         if out:
